@@ -11,7 +11,7 @@ from ..condgen import CondGen
 from ..pathgen import PathGen
 from ..specgen import SpecGen, path_leaves, d12_flag
 from ..describe import describe_path, Inert0
-from ..pathterms import PathT
+from ..pathterms import PathT, Prim
 from ..terms import valida
 from .c09 import IMPORTS
 from .c11 import pathy
@@ -28,6 +28,21 @@ def sel(p, doc):
     return E.run_outcome(lambda: p.get_data(copy_value(doc), return_paths=True))
 
 
+def corpus_paths():
+    """Regression corpus: literal mapping arguments (inside part conditions) whose keys look like path-spec keys or already hold the
+    escape code, in the three positions from_spec looks at."""
+    from ..pathterms import MapT, ListT, cnd
+    from ..terms import Leaf
+    out = []
+    for key in ("path", "xpath", "\\path", "C:\\path", "path.len", "my\\path.first"):
+        m = {key: 1, "n": 2}
+        doc = {"jobs": {"j1": copy.deepcopy(m), "j2": {key.replace("\\", ""): 1, "n": 2}, "j3": [copy.deepcopy(m)]}}
+        out.append((doc, PathT([Prim("jobs"), MapT(value=cnd(Leaf("Value", "equal_to", [copy.deepcopy(m)])))], [])))
+        out.append((doc, PathT([Prim("jobs"), MapT(value=cnd(Leaf("Value", "in_", [[copy.deepcopy(m), 1]])))], [])))
+        out.append((doc, PathT([Prim("jobs"), MapT(value=cnd(Leaf("Value", "equal_to", [[copy.deepcopy(m)]])))], [])))
+    return out
+
+
 def run(tier, seed, model_ok, spec_ok, replay=None):
     g = Gen(seed)
     cg = CondGen(g)
@@ -37,9 +52,12 @@ def run(tier, seed, model_ok, spec_ok, replay=None):
     n = 600 if tier == "quick" else 20000
     cases, direct = [], []
     dist = Counter()
-    for i in range(n):
+    corpus = corpus_paths()
+    for i in range(-len(corpus), n):
         doc = g.document(4, 4)
         pt = pg.path(doc, max_len=3, mods_p=0.2)      # with modifiers: part specs must refuse, to_spec must carry them
+        if i < 0:
+            doc, pt = corpus[i]
         for l in path_leaves(pt):
             # literal mappings / lists whose keys look like path specs or already hold the escape code, as arguments of the
             # conditions inside parts: written escaped, read back as the literal
